@@ -26,6 +26,7 @@ fn zero_seg(address: usize, value: u8) -> Result<(), RuntimeError> {
     if address == INDICATOR_KEYS_ADDRESS {
         unsafe { set_indicator_keys(value) }
     } else {
-        unimplemented!()
+        // no other address of segment 0 is mapped
+        Err(RuntimeError::IllegalFunctionCall)
     }
 }
